@@ -156,7 +156,8 @@ class ShapelyPolygon(Domain):
                 n=(n - len(bary_coords)), device=device
             )
             points = torch.cat((bary_coords, random_points.as_tensor), dim=0)
-        return points
+        # the scaled grid can also hold more points than asked for
+        return points[:n]
 
     def _compute_number_of_points(self, n, d, params):
         if d:
